@@ -111,6 +111,7 @@ class Failpoints:
 
     def arm(self, fire_at=None):
         self.mon.restart_events()
+        self.main_only = self.__dict__.get("main_only", True)
         self.count = 0
         self.fire_at = fire_at
         self.where = None
